@@ -43,6 +43,12 @@ THEOREMS = [
     "C18_path_edits_full_witness",
     "C18_operand_relabel_witness",
     "C18_raising_injection_leaves_nothing",
+    "C18_yields_node",
+    "C18_identity_shortcut_witness",
+    "C18_value_delegated",
+    "C18_composite_access_witness",
+    "C18_purge_feeds_all",
+    "C18_purge_by_consumers_witness",
 ]
 RULE = (
     "seeded histories of operator expressions on real output channels / single-output nodes: each of the 30 operator "
@@ -653,6 +659,61 @@ def gen_history(rng, n_ops, restart=False, rewrite=False, edits=False):
             "sources": [{k: v for k, v in x.items() if k not in ("now", "cur", "made")} for x in g.sources]}
 
 
+SELF_OPS = ["mul", "add", "sub", "pow", "eq", "ne", "lt", "ge", "getitem", "and", "or", "xor", "contains", "truediv",
+            "floordiv", "mod", "matmul", "slice"]
+
+
+def gen_creator(rng):
+    """expressions written INSIDE a macro's graph creator over the macro's arguments; often both operands are the same
+    argument (`x * x`, `x[x]`, `x[x:]`) and that argument is used by no other child"""
+    g = _Gen(rng)
+    for _ in range(rng.randint(1, 3)):
+        g.src(rng.choice(INTS + LISTS + STRS[:4] + TUPLES + SETS + ["True", "2.5", "None", MATS[0], '{1: "int", "1": "str"}']),
+              "wf", ran=False)
+    for x in g.sources:
+        x.pop("kind", None)
+    for _ in range(rng.randint(1, 4)):
+        if rng.random() < 0.6:
+            i = rng.randrange(len(g.sources))
+            for _try in range(8):
+                d = rng.choice(SELF_OPS)
+                me = lambda: ["ref", ["src", i], rng.choice(["channel", "node"])]  # noqa: E731
+                if d == "slice":
+                    comps = [me() if rng.random() < 0.6 else ["raw", rng.choice(["None", "0", "1"])] for _ in range(3)]
+                    if not any(c[0] == "ref" for c in comps):
+                        comps[rng.randrange(3)] = me()
+                    op = {"op": d, "owner": ["src", i], "owner_form": rng.choice(["channel", "node"]), "operands": comps}
+                else:
+                    op = {"op": d, "owner": ["src", i], "owner_form": rng.choice(["channel", "node"]), "operands": [me()]}
+                res = g.eval_op(op)
+                if res is _TOO_BIG:
+                    continue
+                if (res is not None and res[0] == "val") or rng.random() < 0.2:
+                    break
+            if res is not _TOO_BIG:
+                g.push(op, res)
+        elif g.ops and rng.random() < 0.25:
+            g.push(_flip_forms(rng, rng.choice([o for o in g.ops])))
+        else:
+            g.push(*g.fresh())
+    return {"kind": "history", "creator": {"host": rng.choice(["alone", "wf", "macro"])}, "ops": g.ops,
+            "sources": [{k: v for k, v in x.items() if k not in ("now", "cur", "made")} for x in g.sources]}
+
+
+def _unary_case(rng, v):
+    """every unary operator on one value, in node and in channel form, inside and outside a parent"""
+    kind = rng.choice([None, None, "macro"])
+    srcs = [{"value": v, "ctx": "wf", "ran": rng.random() < 0.7}, {"value": v, "ctx": "free", "ran": rng.random() < 0.7}]
+    if kind:
+        srcs[0]["kind"] = kind
+    ops = []
+    for d in [x for x in DUNDERS if x in UNARY]:
+        ops.append({"op": d, "owner": ["src", 0], "owner_form": rng.choice(["channel", "node"]), "operands": []})
+        if rng.random() < 0.4:
+            ops.append({"op": d, "owner": ["src", 1], "owner_form": rng.choice(["channel", "node"]), "operands": []})
+    return {"kind": "history", "sources": srcs, "ops": ops}
+
+
 def _bigpair_case(rng, kind, size=None):
     """sources that hold the long / large values themselves, so that all six expressions are valid and their
     values differ: table[a] / table[b], box.contains(a) / box.contains(b), self.eq(a) / self.eq(b)"""
@@ -737,6 +798,14 @@ def gen_cases(rng, tier):
     for i in range(30 if tier == "quick" else 400):
         c = gen_history(rng, rng.randint(3, 8), edits=True)
         c["id"] = f"{tier[0]}e{i}"
+        yield c
+    for i in range(40 if tier == "quick" else 500):
+        c = gen_creator(rng)
+        c["id"] = f"{tier[0]}c{i}"
+        yield c
+    for i, v in enumerate(POOL):
+        c = _unary_case(rng, v)
+        c["id"] = f"{tier[0]}u{i}"
         yield c
     k = 0
     for kind in ["str", "int", "list", "tuple", "set", "dict", "dictkey", "nested", "liststr"]:
@@ -876,6 +945,33 @@ def corpus():
                    {"op": "add", "owner": ["src", 0], "owner_form": "node", "operands": [["ref", ["src", 1], "node"]]},
                    {"op": "edit", "kind": "newsrc", "src": 2, "source": {"value": "5", "ctx": "wf", "ran": True, "label": "s1"}},
                    {"op": "add", "owner": ["src", 0], "owner_form": "node", "operands": [["ref", ["src", 2], "node"]]}]}
+    # expressions inside a graph creator whose two operands are the same argument; the macro alone / in a workflow / nested
+    for host in ("alone", "wf", "macro"):
+        yield {"kind": "history", "id": f"c-creator-{host}", "creator": {"host": host},
+               "sources": [{"value": "5", "ctx": "wf", "ran": False}, {"value": "[1, 2]", "ctx": "wf", "ran": False}],
+               "ops": [{"op": "mul", "owner": ["src", 0], "owner_form": "node", "operands": [["ref", ["src", 0], "node"]]},
+                       {"op": "add", "owner": ["src", 1], "owner_form": "node", "operands": [["ref", ["src", 1], "channel"]]},
+                       {"op": "getitem", "owner": ["op", 1], "owner_form": "node", "operands": [["raw", "3"]]},
+                       {"op": "sub", "owner": ["op", 0], "owner_form": "node", "operands": [["ref", ["op", 2], "node"]]}]}
+    yield {"kind": "history", "id": "c-creator-invalid", "creator": {"host": "alone"},
+           "sources": [{"value": "None", "ctx": "wf", "ran": False}],
+           "ops": [{"op": "add", "owner": ["src", 0], "owner_form": "node", "operands": [["ref", ["src", 0], "node"]]}]}
+    # a single-output COMPOSITE as owner and operand, plain-named operations included; unary plus on odd values
+    yield {"kind": "history", "id": "c-composite",
+           "sources": [{"value": "[1, 2, 3]", "ctx": "wf", "ran": True, "kind": "macro"}, {"value": "2", "ctx": "wf", "ran": True},
+                       {"value": "True", "ctx": "wf", "ran": True, "kind": "macro"},
+                       {"value": "Decimal('1.23456789012345678901234567890123')", "ctx": "free", "ran": True}],
+           "ops": [{"op": "len", "owner": ["src", 0], "owner_form": "node", "operands": []},
+                   {"op": "bool", "owner": ["src", 0], "owner_form": "node", "operands": []},
+                   {"op": "contains", "owner": ["src", 0], "owner_form": "node", "operands": [["ref", ["src", 1], "node"]]},
+                   {"op": "eq", "owner": ["src", 0], "owner_form": "node", "operands": [["ref", ["src", 0], "node"]]},
+                   {"op": "int", "owner": ["src", 2], "owner_form": "node", "operands": []},
+                   {"op": "float", "owner": ["src", 2], "owner_form": "node", "operands": []},
+                   {"op": "pos", "owner": ["src", 2], "owner_form": "node", "operands": []},
+                   {"op": "pos", "owner": ["src", 0], "owner_form": "channel", "operands": []},
+                   {"op": "pos", "owner": ["src", 3], "owner_form": "node", "operands": []},
+                   {"op": "add", "owner": ["src", 1], "owner_form": "node", "operands": [["ref", ["op", 0], "node"]]},
+                   {"op": "mul", "owner": ["src", 0], "owner_form": "node", "operands": [["ref", ["src", 1], "node"]]}]}
     # KF-C18-3: the same expressions again after save / new interpreter session / load
     yield {"kind": "history", "id": "c-restart",
            "sources": [{"value": "3", "ctx": "wf", "ran": True}, {"value": "[1, 2]", "ctx": "wf", "ran": True}],
@@ -913,6 +1009,7 @@ def corpus():
 
 _VARIANT = None
 _CREATED: list = []
+_CREATOR_COUNT = 0
 
 
 def _variant():
@@ -1085,9 +1182,19 @@ def _make_source(kind, v, label, parent):
         n = Passes(v, label=label, parent=parent)
     else:
         n = std.UserInput(v, label=label, parent=parent)
-    n.recovery = None
-    n.use_cache = False  # "once run": a cache hit is not a run (what may be served from a cache is C05/C08)
+    _uncache(n)
     return n
+
+
+def _uncache(n):
+    """"once run": a cache hit is not a run (what may be served from a cache is C05/C08) - also inside a composite"""
+    n.recovery = None
+    n.use_cache = False
+    from pyiron_workflow.nodes.composite import Composite
+
+    if isinstance(n, Composite):  # (never `hasattr` on a node: unknown attributes inject GetAttr nodes)
+        for c in n.children.values():
+            _uncache(c)
 
 
 def _slice_node_for(parent, comps):
@@ -1096,7 +1203,7 @@ def _slice_node_for(parent, comps):
 
     if parent is None:
         return None
-    for c in parent.children.values():
+    for c in reversed(list(parent.children.values())):  # the youngest, should a relabel have left twins (KF-C18-4)
         if type(c).__name__ != "Slice" or len(c.inputs) < 3:
             continue
         ok = True
@@ -1116,10 +1223,18 @@ class _Run:
 
     PAR_ID = {"wf": "0", "wf2": "1", "mac": "2", "free": "-"}
 
+    deferred = False  # True while a macro's graph creator is writing the expressions: nothing can be pulled yet
+
     def __init__(self, case):
         import pyiron_workflow.nodes.standard as std
         from pyiron_workflow import Workflow
 
+        if case.get("creator"):
+            # the expressions are written INSIDE a macro's graph creator, over the macro's arguments: the parent and
+            # the operand nodes only exist once the macro class is instantiated (see `in_creator`)
+            self.wfs, self.src_nodes, self.src_vals, self.src_ctx, self.src_info = {}, [], [], [], []
+            self._blank()
+            return
         self.wfs = {"wf": Workflow("w", autoload=None), "wf2": Workflow("w2", autoload=None)}
         if any(s["ctx"] == "mac" for s in case["sources"]):
             from .nodes_c18 import Holder3
@@ -1158,6 +1273,9 @@ class _Run:
                 ch.recovery = None
                 if not any(ch is n for n in self.src_nodes):
                     self.src_info.append([self.PAR_ID["mac"], None, lab])
+        self._blank()
+
+    def _blank(self):
         self.n_edits = 0
         self.inj_nodes: list = []  # every node made by an expression, in creation order (= the model's node ids)
         self.inj_ctx: list = []
@@ -1169,6 +1287,97 @@ class _Run:
         self.stats: dict = {}
         self.restarted = False
         self.hash_variant = None
+
+    # -- expressions inside a graph creator
+    def in_creator(self, macro, ui_nodes, vals, ops):
+        """called from the graph creator: `macro` is the parent under construction, `ui_nodes` stand for its arguments"""
+        self.wfs = {"wf": macro}
+        self.src_nodes = list(ui_nodes)
+        self.src_vals = list(vals)
+        self.src_ctx = ["wf"] * len(ui_nodes)
+        self.src_info = [["0", n.channel.scoped_label, n.label] for n in ui_nodes]
+        self.src_info += [["0", None, c.label] for c in macro.children.values() if not any(c is n for n in ui_nodes)]
+        self.deferred = True
+        for op in ops:
+            if op["op"] not in MARKERS:
+                self.op(op)
+        self.deferred = False
+        ks = [k for k in self.op_node if k is not None]
+        self.ret_k = ks[-1] if ks else None
+        return self.inj_nodes[self.ret_k] if ks else ui_nodes[0]
+
+    def run_creator(self, case):
+        """make the macro class, instantiate it stand-alone / in a workflow / inside another macro, run it, and compare
+        the macro's output and every node the creator injected with Python"""
+        from pyiron_workflow import Workflow
+
+        global _CREATOR_COUNT
+        _CREATOR_COUNT += 1
+        run, srcs = self, case["sources"]
+        vals = [_lit(x["value"]) for x in srcs]
+        n = len(vals)
+
+        def creator(self, a0=None, a1=None, a2=None):
+            return run.in_creator(self, [a0, a1, a2][:n], vals, case["ops"])
+
+        creator.__name__ = creator.__qualname__ = f"Creator{_CREATOR_COUNT}"
+        host = case["creator"].get("host", "alone")
+        kw = {f"a{i}": v for i, v in enumerate(vals)}
+        r = {"d": "macro-run", "injected": False, "exp": None, "raised": None, "host": host}
+        top = None
+        try:
+            inner_cls = Workflow.wrap.as_macro_node("out")(creator)
+            if host == "macro":
+                def outer(self, b0=None, b1=None, b2=None):
+                    self.inner = inner_cls(*[b0, b1, b2][:n])
+                    return self.inner
+
+                outer.__name__ = outer.__qualname__ = f"Outer{_CREATOR_COUNT}"
+                top = Workflow.wrap.as_macro_node("out")(outer)(label="o", **{f"b{i}": v for i, v in enumerate(vals)})
+                out = lambda: top.outputs.out.value  # noqa: E731
+            elif host == "wf":
+                top = Workflow("host", autoload=None)
+                top.m = inner_cls(**kw)
+                out = lambda: top.m.outputs.out.value  # noqa: E731
+            else:
+                top = inner_cls(label="m", **kw)
+                out = lambda: top.outputs.out.value  # noqa: E731
+            _uncache(top)
+        except Exception as e:  # noqa: BLE001
+            r["raised"] = type(e).__name__
+            r["got"] = ["exc", type(e).__name__]
+            r["phase"] = "instantiate"
+            r["value_ok"] = False
+            self.obs.append(f"macrorun instantiate {type(e).__name__}")
+            self.rec.append(r)
+            return
+        memo: dict = {}
+        exp = self.expected(("node", self.ret_k), memo) if getattr(self, "ret_k", None) is not None else None
+        # the creator's body is one Python program: if any of its expressions raises in Python, so may the macro
+        for k in range(len(self.inj_nodes)):
+            e_k = self.expected(("node", k), memo)
+            if e_k is not None and e_k[0] == "exc":
+                exp = e_k
+        try:
+            top.run()
+            got = ("val", out())
+        except Exception as e:  # noqa: BLE001
+            got = ("exc", type(e).__name__)
+            top.failed = False
+        r["got"] = [got[0], got[1] if got[0] == "exc" else repr(got[1])[:200]]
+        if exp is not None:
+            r["exp"] = [exp[0], exp[1] if exp[0] == "exc" else repr(exp[1])[:200]]
+            # a failing child is reported by the macro in the library's own wrapper: only "raises" is compared here,
+            # the exception type is compared node by node below
+            r["value_ok"] = (got[0] == "exc") if exp[0] == "exc" else (got[0] == "val" and _same(got[1], exp[1]))
+            r["ret_d"] = self.defn[self.ret_k][0] if self.defn[self.ret_k] else "?"
+            self.bump("cmp")
+            self.bump(f"res:{got[0]}")
+        self.obs.append(f"macrorun {got[0]}")
+        self.recheck(r)
+        self.rec.append(r)
+        self.bump("op:macro-run")
+        self.bump(f"host:{host}")
 
     # -- helpers
     def bump(self, key, n=1):
@@ -1205,8 +1414,7 @@ class _Run:
                 ch.use_cache = False
         for n in self.src_nodes + self.inj_nodes:
             if n is not None:
-                n.recovery = None
-                n.use_cache = False
+                _uncache(n)
 
     # -- pickling of the whole state (identities between the lists and the children tables are preserved)
     def dumps(self):
@@ -1600,6 +1808,11 @@ class _Run:
         elif r["new"] and not r.get("lost"):
             self.defn[r["k"]] = (d, tuple(oid), arg_defs)
         # the value, evaluated once per node (at its creation)
+        if result_new and self.deferred:
+            self.bump(f"op:{d}")
+            self.bump("in-creator")
+            self.rec.append(r)
+            return
         if result_new:
             if got is None:
                 if raised is not None:
@@ -1670,7 +1883,10 @@ def run_impl(case):
         return {"obs": list(case["expect"]), "variant": variant, "ops": [], "stats": {"malformed": 1}}
     _install_hook()
     run = _Run(case)
-    run.run_ops(case["ops"])
+    if case.get("creator"):
+        run.run_creator(case)
+    else:
+        run.run_ops(case["ops"])
     variant["hash"] = run.hash_variant or "salted"
     return {"obs": run.obs, "variant": variant, "ops": run.rec, "stats": run.stats, "src": run.src_info}
 
@@ -1706,7 +1922,7 @@ def model_input(case, impl=None):
 
 
 def corr_view(case, impl):
-    return [o for o in impl["obs"] if not o.startswith(("noinject", "noreload", "noedit"))]
+    return [o for o in impl["obs"] if not o.startswith(("noinject", "noreload", "noedit", "macrorun"))]
 
 
 # ----------------------------------------------------------------------------- oracle (independent of the model)
@@ -1762,7 +1978,12 @@ def oracle(case, r):
             if o.get("lines"):
                 marks.append((i, "relabel_src" if o["kind"] == "relabel_src" else "edit", o.get("src")))
             continue
-        if d in ("update", "recheck"):
+        if d == "macro-run" and o.get("value_ok") is False:
+            fails.append(_f("value-mismatch", f"op #{i}: the macro whose graph creator wrote the expressions ({o.get('host')}) "
+                            f"gives {o.get('got')} when run, Python gives {o.get('exp')} for the returned expression",
+                            trigger=o.get("ret_d", "?"), phase=o.get("phase", "macro-run")))
+            break
+        if d in ("update", "recheck", "macro-run"):
             # every node made so far, pulled again (after the operands' values changed): still Python's value?
             for b in o.get("recheck_bad", []):
                 fails.append(_f("value-mismatch", f"op #{i} ({d}): node {b['k']} (made for a `{b['d']}` expression in "
